@@ -25,7 +25,12 @@ import (
 type Value interface{}
 
 // Str is a string value: immutable list of byte terms.
-type Str struct{ B []*Term }
+type Str struct {
+	B []*Term
+	// SymLen, if non-nil, is the symbolic length of a string view made by
+	// unsafe.String over a symbolic-length slice; B holds the tracked bytes.
+	SymLen *Term
+}
 
 // Struct and Array are aggregates.
 type Struct []Value
